@@ -1,11 +1,11 @@
 package main
 
 import (
-	"strconv"
 	"fmt"
 	"go/token"
 	"go/types"
 	"sort"
+	"strconv"
 	"strings"
 
 	"golang.org/x/tools/go/ssa"
@@ -528,7 +528,9 @@ func ruleC19Block(c *Checker) {
 		return
 	}
 	for _, fn := range sortedFuncs(p.reach(roots...)) {
-		for _, ci := range callsTo(fn, func(o *types.Func) bool { return isFunc(o, "os", "Open") || isFunc(o, "os", "ReadFile") || isFunc(o, "os", "OpenFile") }) {
+		for _, ci := range callsTo(fn, func(o *types.Func) bool {
+			return isFunc(o, "os", "Open") || isFunc(o, "os", "ReadFile") || isFunc(o, "os", "OpenFile")
+		}) {
 			cl, ok := ci.(*ssa.Call)
 			if !ok {
 				continue
@@ -890,7 +892,6 @@ func docOf(p *Prog, fn *ssa.Function) string {
 	return ""
 }
 
-
 // pushedIsCompared: the element appended to the visited list for the
 // recursive call is one of the values the scanning loop compares the list's
 // elements against.
@@ -968,7 +969,6 @@ func pushedIsCompared(ci ssa.CallInstruction, ap *ssa.Call) bool {
 	}
 	return false
 }
-
 
 // fieldPathKey names a value by the chain of field selections that leads to
 // it from a root (parameter, call result, fresh allocation), looking through
